@@ -67,6 +67,47 @@ def KOp.WF {K : Type} (idx : K → Nat) (ok : K → Prop) (w : Nat) : KOp K → 
   | .syncAt j k => ok k ∧ j = idx k
   | _ => True
 
+/-! ### the driver's oracle: the specification state of every context, maintained call by call
+
+    The correspondence driver cannot afford to recompute `Ghost.init.run (h.map (ctxProject ctx c))` for every context after every
+    call; it keeps one `Ghost` per context seen so far plus one for "a context no keyed call has touched yet" (which only sees the
+    table-wide calls).  `AITB.Props.C07Keyed.oracle_sound` proves this bookkeeping computes exactly the specification state. -/
+
+/-- what a call means for a context none of whose keys has been used yet -/
+def KOp.globalLOp {K : Type} : KOp K → LOp
+  | .syncAll => .sync
+  | .reset => .reset
+  | .ctor b => .ctor b
+  | _ => .nop
+
+def KOp.key? {K : Type} : KOp K → Option K
+  | .record k _ _ => some k
+  | .sync k => some k
+  | .syncAt _ k => some k
+  | _ => none
+
+structure Oracle (C : Type) where
+  entries : List (C × Ghost)
+  fresh : Ghost
+  deriving Inhabited
+
+def Oracle.init {C : Type} : Oracle C := { entries := [], fresh := Ghost.init }
+
+def Oracle.has {C : Type} [DecidableEq C] (o : Oracle C) (c : C) : Bool := o.entries.any (fun e => decide (e.1 = c))
+
+def Oracle.ghostOf {C : Type} [DecidableEq C] (o : Oracle C) (c : C) : Ghost :=
+  match o.entries.find? (fun e => decide (e.1 = c)) with
+  | some e => e.2
+  | none => o.fresh
+
+def Oracle.step {K C : Type} [DecidableEq C] (ctx : K → C) (o : Oracle C) (op : KOp K) : Oracle C :=
+  let es := match op.key? with
+    | some k => if o.has (ctx k) then o.entries else o.entries ++ [(ctx k, o.fresh)]
+    | none => o.entries
+  { entries := es.map (fun e => (e.1, e.2.step (op.ctxProject ctx e.1))), fresh := o.fresh.step op.globalLOp }
+
+def Oracle.run {K C : Type} [DecidableEq C] (ctx : K → C) (o : Oracle C) (h : List (KOp K)) : Oracle C := h.foldl (Oracle.step ctx) o
+
 /-! ### Factored::MDP::Cooperative{Experience, MaximumLikelihoodModel} -/
 
 /-- a call of the cooperative classes, with its arguments -/
